@@ -13,6 +13,7 @@ CONSTANTS
     InsertFirst = FALSE
     WithHold = TRUE
     MaxLen = 65497
+    V6Flows = {2}
     BigOn = 3
     ErrReadNeedsReply = FALSE
     WithFault = TRUE
